@@ -261,7 +261,7 @@ theorem interpIndex_bracket (xs : List Rat) (i : Nat) (g : Rat)
   set c := countLE xs g with hcdef
   obtain ⟨a, hka, hale⟩ := hin (c - 1) (by omega)
   have hlenpos : 0 < xs.length := List.length_pos_iff.mpr hne
-  unfold interpIndex
+  rw [src_interpIndex]
   simp only [← hcdef]
   rw [if_neg (by omega)]
   by_cases hdec : i ≥ 1 ∧ xs[c - 1]? = some g
@@ -384,7 +384,7 @@ theorem interpolateAt_sound (H : List Pt) (i : Nat) (g : Rat)
   have hres : interpolateAt H i g = some
       { x := g, y := (pb.x - g) / (pb.x - pa.x) * pa.y + (1 - (pb.x - g) / (pb.x - pa.x)) * pb.y,
         p0 := (pb.x - g) / (pb.x - pa.x), op0 := pa.op, p1 := 1 - (pb.x - g) / (pb.x - pa.x), op1 := pb.op } := by
-    unfold interpolateAt
+    rw [src_interpolateAt]
     rw [hidx]
     simp only [hpa, hpb]
     rw [if_neg hden]
